@@ -436,6 +436,9 @@ func (c *Ctx) runUnitObligations(ev *Evidence, ur *UnitRun, label string, timeou
 	}
 	nUnknown := 0
 	skipped := dischargeStream(ur.In, ev, ur.Obs, func(ob *sym.Obligation) bool {
+		if strings.HasPrefix(ob.ID, "C13-") != (label == "C13") {
+			return false // shared-state assertions belong to the C13 check
+		}
 		if ob.Kind == "reach" {
 			nReach[ob.ID]++
 			return nReach[ob.ID] <= 6
